@@ -1381,6 +1381,10 @@ class Interp:
     def set_local(self, n, v):
         for s in reversed(self.scopes):
             if n in s:
+                if s[n] is _UNSET:
+                    # assignment before the declaration was reached (another clause of the same switch declares the name):
+                    # a ReferenceError in ECMAScript, the enclosing variable under textual scoping -- not judged
+                    raise Undefined("assignment to a variable of the switch body before its declaration")
                 s[n] = v
                 return
         raise KeyError(n)
